@@ -164,6 +164,12 @@ def contributors():
     # exports that follow a nested instance in export order
     one(I0, inst({"s": fA, "n": inst({"x": fA}), "f": fA}))                   # 65
     one(I0, inst({"s": fA, "n": inst({"x": fA, "y": fB}), "g": fB}))          # 66
+    # one instance type definition imported under two plain names, and requirements that differ from it
+    PA, PB = ("pa", None), ("pb", None)
+    c.append({"imports": [(PA, inst({"f": fA})), (PB, inst({"f": fA}))], "agg": [0, 1], "same": {0: 1, 1: 1}})   # 67
+    one(PA, inst({"f": fA, "g": fB}))                         # 68
+    one(PB, inst({"f": fA, "w": fA}))                         # 69
+    one(PA, inst({"g": fA}))                                  # 70 conflicts with 68 on pa only
     for i, x in enumerate(c):
         x["id"] = i + 1
         x["e2e"] = x["agg"] == list(range(len(x["imports"]))) and not x.get("api_only")
@@ -212,6 +218,7 @@ class Comp:
         self.n = 0
         self.share = share     # functions of one signature share a type definition
         self.handles = {}      # (interface name string, export) -> component-level type index name
+        self.groups = {}       # group -> type index name of the shared instance type definition
 
     def fresh(self, p):
         self.n += 1
@@ -257,8 +264,15 @@ class Comp:
                 parts.append(f'(export "{n}" (instance {self.inst_type(v, depth + 1)}))')
         return " ".join(parts)
 
-    def add_import(self, name, k):
+    def add_import(self, name, k, grp=0):
         s = name_str(name)
+        if grp:
+            # imports of one group are ascribed ONE instance type definition
+            if grp not in self.groups:
+                self.groups[grp] = self.fresh("g")
+                self.lines.append(f"(type {self.groups[grp]} (instance {self.inst_type(k, 1)}))")
+            self.lines.append(f'(import "{s}" (instance (type {self.groups[grp]})))')
+            return
         if k[0] == "func":
             self.lines.append(f'(import "{s}" {AGG_SIGS[k[1]]["wat"]})')
             return
@@ -290,7 +304,8 @@ def emit():
     t = ["---- MODULE Lib_agg ----", "\\* GENERATED by lib/universe_agg.py -- do not edit", "EXTENDS TLC, Integers", ""]
     rows = []
     for c in cs:
-        reqs = ", ".join(f"[name |-> {tla_name(c['imports'][i][0])}, kind |-> {tla_kind(c['imports'][i][1])}]" for i in c["agg"])
+        reqs = ", ".join(f"[name |-> {tla_name(c['imports'][i][0])}, kind |-> {tla_kind(c['imports'][i][1])}, "
+                         f"grp |-> {c.get('same', {}).get(i, 0)}]" for i in c["agg"])
         rows.append(f"[id |-> {c['id']}, reqs |-> <<{reqs}>>]")
     t.append("AG_Contribs == <<\n  " + ",\n  ".join(rows) + ">>")
     t.append("====")
@@ -299,8 +314,8 @@ def emit():
     data = {"sigs": {v["desc"]: k for k, v in AGG_SIGS.items()}, "contributors": []}
     for c in cs:
         w = Comp(share=c.get("share", False))
-        for n, k in c["imports"]:
-            w.add_import(n, k)
+        for i, (n, k) in enumerate(c["imports"]):
+            w.add_import(n, k, c.get("same", {}).get(i, 0))
         data["contributors"].append({"id": c["id"], "wat": w.text(), "imports": [name_str(n) for n, _ in c["imports"]],
                                      "agg": [name_str(c["imports"][i][0]) for i in c["agg"]], "e2e": c["e2e"]})
     with open(os.path.join(ROOT, "harness", "data", "agg.json"), "w") as f:
